@@ -239,21 +239,21 @@ Proof. eexists. split; [vm_compute; reflexivity|reflexivity]. Qed.
 (* 2. IBB writer vs. the peer's close                                      *)
 (* ====================================================================== *)
 
-Definition iw_enabled (b : bool) (s : iwstate) (l : iwlabel) : Prop := iw_step b s l <> None.
+Definition iw_enabled (b : bool) (s : iwstate) (l : iwlabel) : Prop := iw_step b false s l <> None.
 
 Ltac iw_break H := repeat match type of H with
   | context [match ?x with _ => _ end] => destruct x eqn:?; try discriminate
   end.
 
 (* the serve goroutine never waits for the write lock *)
-Lemma iw_never_blocked_step s l s' : iw_v s <> VBlocked -> iw_step false s l = Some s' -> iw_v s' <> VBlocked.
+Lemma iw_never_blocked_step s l s' : iw_v s <> VBlocked -> iw_step false false s l = Some s' -> iw_v s' <> VBlocked.
 Proof.
   intros N H. destruct l; cbn [iw_step] in H; iw_break H; injection H as <-; cbn; congruence.
 Qed.
 
-Lemma iw_never_blocked_run tr s : run (iw_step false) iw_init tr = Some s -> iw_v s <> VBlocked.
+Lemma iw_never_blocked_run tr s : run (iw_step false false) iw_init tr = Some s -> iw_v s <> VBlocked.
 Proof.
-  apply (invariant_run _ _ (iw_step false) (fun s => iw_v s <> VBlocked) iw_init).
+  apply (invariant_run _ _ (iw_step false false) (fun s => iw_v s <> VBlocked) iw_init).
   - discriminate.
   - intros s0 l s1 I H. exact (iw_never_blocked_step s0 l s1 I H).
 Qed.
@@ -270,20 +270,20 @@ Definition iw_serve_waits (b : bool) (s : iwstate) : Prop :=
 
 (* Serve ends in the close handler only with the stale error of a failed data packet *)
 Lemma iw_ended_only_broken_step s l s' :
-  (iw_v s = VEnded -> iw_broken s = true) -> iw_step false s l = Some s' -> (iw_v s' = VEnded -> iw_broken s' = true).
+  (iw_v s = VEnded -> iw_broken s = true) -> iw_step false false s l = Some s' -> (iw_v s' = VEnded -> iw_broken s' = true).
 Proof.
   intros I H. destruct l; cbn [iw_step] in H; iw_break H; injection H as <-; cbn; intros; try discriminate; auto;
     try (rewrite I by congruence; reflexivity); try congruence.
 Qed.
 
-Lemma iw_ended_only_broken_run tr s : run (iw_step false) iw_init tr = Some s -> iw_v s = VEnded -> iw_broken s = true.
+Lemma iw_ended_only_broken_run tr s : run (iw_step false false) iw_init tr = Some s -> iw_v s = VEnded -> iw_broken s = true.
 Proof.
-  apply (invariant_run _ _ (iw_step false) (fun s => iw_v s = VEnded -> iw_broken s = true) iw_init).
+  apply (invariant_run _ _ (iw_step false false) (fun s => iw_v s = VEnded -> iw_broken s = true) iw_init).
   - discriminate.
   - intros s0 l s1 I H. exact (iw_ended_only_broken_step s0 l s1 I H).
 Qed.
 
-Lemma iw_serve_progress_run tr s : run (iw_step false) iw_init tr = Some s -> iw_serve_waits false s.
+Lemma iw_serve_progress_run tr s : run (iw_step false false) iw_init tr = Some s -> iw_serve_waits false s.
 Proof.
   intro R. pose proof (iw_never_blocked_run tr s R) as N. unfold iw_serve_waits, iw_enabled.
   destruct (iw_v s) eqn:E; auto; cbn [iw_step]; rewrite ?E; try discriminate.
@@ -310,9 +310,9 @@ Qed.
 (* the close request is always answered, whatever the writer does *)
 Lemma iw_close_completes s :
   iw_v s = VClose -> iw_broken s = false ->
-  exists s1, iw_step false s VTry = Some s1 /\
+  exists s1, iw_step false false s VTry = Some s1 /\
     (iw_v s1 = VIdle /\ iw_closed s1 = true \/
-     exists s2, iw_step false s1 VFlushDone = Some s2 /\ iw_v s2 = VIdle /\ iw_closed s2 = true).
+     exists s2, iw_step false false s1 VFlushDone = Some s2 /\ iw_v s2 = VIdle /\ iw_closed s2 = true).
 Proof.
   intros E B. cbn [iw_step]. rewrite E. destruct (writer_holds s).
   - eexists. split; [reflexivity|]. left. split; reflexivity.
@@ -321,7 +321,7 @@ Qed.
 
 (* a writer overtaken by the close is told to stop: its next packet fails *)
 Lemma iw_aborted_after_overtaking s s1 :
-  iw_v s = VClose -> writer_holds s = true -> iw_step false s VTry = Some s1 -> iw_aborted s1 = true /\ iw_w s1 = iw_w s.
+  iw_v s = VClose -> writer_holds s = true -> iw_step false false s VTry = Some s1 -> iw_aborted s1 = true /\ iw_w s1 = iw_w s.
 Proof.
   intros E W H. cbn [iw_step] in H. rewrite E, W in H. injection H as <-. split; reflexivity.
 Qed.
@@ -331,7 +331,7 @@ Qed.
 Definition overtake_trace : list iwlabel := [WStart; WSend; VCloseArrive; VTry].
 
 Lemma iw_blocking_deadlock :
-  exists s, run (iw_step true) iw_init overtake_trace = Some s /\
+  exists s, run (iw_step true false) iw_init overtake_trace = Some s /\
     iw_w s = WWait /\ iw_v s = VBlocked /\
     forall l, iw_enabled true s l -> l = WDeadline.
 Proof.
@@ -341,6 +341,6 @@ Qed.
 
 (* the same schedule on the code *)
 Lemma iw_code_overtake :
-  exists s, run (iw_step false) iw_init (overtake_trace ++ [WAck true]) = Some s /\
+  exists s, run (iw_step false false) iw_init (overtake_trace ++ [WAck true]) = Some s /\
     iw_w s = WRet true /\ iw_v s = VIdle /\ iw_closed s = true /\ iw_aborted s = true.
 Proof. eexists. split; [vm_compute; reflexivity|]. repeat split. Qed.
